@@ -113,6 +113,34 @@ BUILT = {
         design="DESIGN.md section 6 C09",
         technique="TLA+ grammar of the spec language model-checked with TLC + TLC-generated spellings replayed into from_spec + TLC trace validation",
     ),
+    "C10": dict(
+        text=("Grammar.tla also transcribes the part, path, path-string, rule and schema parsers (exact-case part keys, long "
+              "forms and dotted shorthands and the order in which they are and-combined, suffix aliases in either order, "
+              "int/float ambiguity of path strings, cast lookup, doc normalisation). TLC checks part / path / rule round "
+              "trips and suffix-order laws on a universe of 116 parts, and judges every recorded parse of seeded spellings "
+              "(Python structures, YAML text and YAML file routes) against its own parse; the parsed object must == the "
+              "API-built one."),
+        design="DESIGN.md section 6 C10",
+        technique="TLA+ grammar of part/path/rule specs model-checked with TLC + TLC trace validation of recorded parses",
+    ),
+    "C16": dict(
+        text=("SpecStore.tla models the caller's spec structures as a store with identity in which several specs share "
+              "sub-structures; parse calls must leave the store unchanged (action property) and repeated parses must give "
+              "the same result (the consuming parsers of the pinned code are rejected by TLC). TLC-generated parse "
+              "histories are replayed on real dicts/lists that share sub-structures, and every well-formed spec of the "
+              "C09/C10/C17 generators is snapshotted type-exactly, parsed twice and judged by the TLC acceptor."),
+        design="DESIGN.md section 6 C16",
+        technique="TLA+ spec-store state machine model-checked with TLC + TLC-generated parse histories replayed on shared real structures + TLC trace validation",
+    ),
+    "C19": dict(
+        text=("The parser model of Grammar.tla is total: TLC checks on 47 800 (structure, parser) pairs over valid, near-miss "
+              "and attribute-name tokens that every parser yields ok / definite error / unconstrained and that each listed "
+              "error class is a definite error. Recorded parses of 24 classes of injected errors and of random structural "
+              "mutations of well-formed specs are judged: what the model calls a definite error must be rejected, and any "
+              "rejection must use a Malformed* error, TypeError, ValueError or the KeyError naming a missing rule field."),
+        design="DESIGN.md section 6 C19",
+        technique="TLA+ grammar (total parser model) model-checked with TLC + TLC trace validation of recorded parses of malformed specs",
+    ),
 }
 
 
